@@ -369,7 +369,7 @@ def backward_cumulation_step(K, name):
 from pyvc.bounded import bounded
 
 
-@bounded("C13", bound="series of 6-14 periods (yearly, quarterly, monthly, daily), 1-2 variants, positive data; shifts -1..-4; forward spans and backward spans inside the data; cum_diff, cum_diff_log, cum_pct, cum_roc; keyword shifts yoy/soy/eopy/tty of diff against an independent per-period reference")
+@bounded("C13", bound="series of 6-14 periods (yearly, quarterly, monthly, daily), 1-2 variants, positive data; shifts -1..-4; forward spans and backward spans inside the data; cum_diff, cum_diff_log, cum_pct, cum_roc; keyword shifts yoy/soy/eopy/tty of diff, diff_log, roc, pct against an independent per-period reference")
 def cumulation_and_keyword_shifts_native(B):
     """Native replay of the series-level sentences: cumulating the change with the original as initial condition
     reproduces the original on the span (forward and backward, every negative shift); keyword-shift changes equal
@@ -407,24 +407,27 @@ def cumulation_and_keyword_shifts_native(B):
                 for kw in ("yoy", "soy", "eopy", "tty"):
                     if cls is D.DailyPeriod and kw == "yoy":
                         continue
-                    B.case()
-                    try:
-                        d = ir.diff(x, kw)
-                    except Exception as ex:
-                        B.fail(f"diff(x, {kw!r}): exception {type(ex).__name__}: {ex}", {"class": cls.__name__})
-                        return
-                    for i in range(n):
-                        t = start + i
-                        ref = {"yoy": t - int(cls.frequency), "soy": t.create_soy(), "eopy": t.create_eopy(), "tty": t.create_tty()}[kw]
-                        xt = x.get_data((t,))[0]
-                        if ref is None:
-                            want = xt            # tty: start-of-year periods keep their value (neutral 0 subtracted)
-                        else:
-                            want = xt - x.get_data((ref,))[0]
-                        got = d.get_data((t,))[0]
-                        if not np.allclose(got, want, equal_nan=True, rtol=1e-9):
-                            B.fail(f"diff with shift {kw!r} is not x(t) - x(reference period)", {"class": cls.__name__, "period": str(t), "got": got.tolist(), "want": want.tolist()})
+                    forms = (("diff", lambda a, b: a - b, lambda a: a), ("diff_log", lambda a, b: np.log(a) - np.log(b), np.log),
+                             ("roc", lambda a, b: a / b, lambda a: a), ("pct", lambda a, b: 100 * (a / b - 1), lambda a: np.full_like(a, np.nan)))
+                    for fname, formula, start_of_year in forms:
+                        B.case()
+                        try:
+                            d = getattr(ir, fname)(x, kw)
+                        except Exception as ex:
+                            B.fail(f"{fname}(x, {kw!r}): exception {type(ex).__name__}: {ex}", {"class": cls.__name__})
                             return
+                        for i in range(n):
+                            t = start + i
+                            ref = {"yoy": t - int(cls.frequency), "soy": t.create_soy(), "eopy": t.create_eopy(), "tty": t.create_tty()}[kw]
+                            xt = x.get_data((t,))[0]
+                            if ref is None:
+                                want = start_of_year(xt)     # tty, start-of-year period: the value itself in the units of the function (pct: missing)
+                            else:
+                                want = formula(xt, x.get_data((ref,))[0])
+                            got = d.get_data((t,))[0]
+                            if not np.allclose(got, want, equal_nan=True, rtol=1e-9):
+                                B.fail(f"{fname} with shift {kw!r} is not its formula on x(t) and x(reference period)", {"class": cls.__name__, "period": str(t), "got": got.tolist(), "want": want.tolist()})
+                                return
                     # cumulating the keyword-shift change forward with the original as initial condition reproduces it
                     if n >= 10 and cls is not D.DailyPeriod:
                         F_ = int(cls.frequency)
